@@ -75,6 +75,18 @@ CLAIMED['C06'] = (
     '(evidence not_covered).',
     'contract-based deductive verification (AST->VC generator, z3 + cvc5), native replay of counter-models')
 
+CLAIMED['C08'] = (
+    'DESIGN.md 4 C08',
+    'Deductive proof, per start mode (epoch/today/month/year/now/explicit) and for all clocks, depths, update periods and '
+    'reference timing, of every inequality of the statement as postconditions of DashTiming.calculate_live_params, with the '
+    'exact values of availabilityStartTime, timeShiftBufferDepth, firstAvailableTime and publishTime; two-state lemmas: '
+    'availabilityStartTime and publishTime never move backward, symbolic starts are one instant within a UTC day after its '
+    'first minute, now follows the clock at 60 s, publishTime = start + k periods and lags by less than a period.',
+    'Trusted: pyvc datetime/timedelta model (UTC instants as integer microseconds), calendar axioms (validated natively '
+    '1970-2100, bounded), floats as exact reals, round() as nearest. Explicit start restricted to whole seconds (known finding). '
+    'Option parsing (ast_from_string) not covered.',
+    'contract-based deductive verification (AST->VC generator, z3 + cvc5), native replay of counter-models')
+
 NOT_APPLICABLE = {
     'C05': 'XML documents come out of Jinja templates rendered by an external engine; no function contract reaches them and the app cannot be instantiated offline (flask_login missing).',
     'C07': 'Identity of string transducers (quote_plus, regex date parsing, split) over a registry built with getattr; SMT string solvers leave these undecided; a proof over only int/bool options would not decide the property.',
